@@ -301,6 +301,15 @@ def fresh_state():
         tmo.AbstractStream.feed_priorities.clear()
     except AttributeError:
         pass
+    # process-global solver/model caches keyed by chemicals (and, for bubble/dew points, by the package's models):
+    # a case must not depend on which packages earlier cases happened to touch
+    for modname in ('thermosteam.equilibrium.bubble_point', 'thermosteam.equilibrium.dew_point',
+                    'thermosteam.equilibrium.activity_coefficients'):
+        mod = sys.modules.get(modname)
+        if mod is None: continue
+        for obj in vars(mod).values():
+            if isinstance(obj, type) and isinstance(obj.__dict__.get('_cached'), dict):
+                obj.__dict__['_cached'].clear()
     from thermosteam import reaction as _r
     rm = sys.modules.get('thermosteam.reaction._reaction')
     if rm is not None and getattr(rm, 'CHECK_FEASIBILITY', True) is not True:
